@@ -74,6 +74,16 @@ pub fn common_failures(sc: &Scenario, tr: &Trace) -> Option<Fail> {
             msg: format!("the daemon of entity {e} stopped: {how}\n{}", tr.render(200)),
         });
     }
+    if tr.orphan_tasks > 0 {
+        return Some(Fail {
+            key: "orphaned-transaction-task".into(),
+            msg: format!(
+                "{} transaction task(s) are still alive at the end although the daemon answers for no such transaction: nothing can reach them any more (a suspended one stays forever)\n{}",
+                tr.orphan_tasks,
+                tr.render(200)
+            ),
+        });
+    }
     if tr.budget_exceeded {
         return Some(Fail {
             key: "pdu-flood".into(),
